@@ -39,6 +39,8 @@ mod t6r;
 mod t6r2;
 mod t6w2;
 mod t6w3;
+mod t6r3;
+mod t6w4;
 
 const FEATURES: &[&str] = &["aes-crypto", "bzip2", "deflate", "time", "zstd"];
 
@@ -3762,6 +3764,8 @@ fn main() {
                 }
                 "tfn" => t6w2::register_tfn(&reg, &all, name),
                 "gfn" => t6w3::register_gfn(name),
+                "zacc" => t6w4::register_zacc(&reg, &all, name),
+                "bfn" => t6w4::register_bfn(&reg, &all, name),
                 "struct" | "sstruct" => {
                     for it in &all {
                         if let Item::Struct(st) = it {
@@ -3939,7 +3943,10 @@ fn main() {
                     "sfn" => t6w::translate_sfn(&reg, &failed, &all, name),
                     "tfn" => t6w2::translate_tfn(&reg, &failed, &all, name),
                     "gfn" => t6w3::translate_gfn(&reg, &failed, &all, name),
+                    "zacc" => t6w4::translate_zacc(&reg, &failed, &all, name),
+                    "bfn" => t6w4::translate_bfn(&reg, &failed, &all, name),
                     "afn" => t6w2::translate_afn(&reg, &failed, &all, name),
+                    "hfn" => t6r3::translate_hfn(&reg, &failed, &all, name),
                     "struct" | "sstruct" => {
                         for it in &all {
                             if let Item::Struct(st) = it {
